@@ -224,6 +224,7 @@ Obs(s, w) ==
    tmean |-> [k \in 1..Len(Ks) |-> Mean(s, tw[k])],
    tvar |-> [k \in 1..Len(Ks) |-> Variance(s, tw[k])],
    wmean |-> [k \in 1..Len(Ks) |-> Mean(s, WinsW(w, ord, cum, k))],
+   wvar |-> [k \in 1..Len(Ks) |-> Variance(s, WinsW(w, ord, cum, k))],      \* winsorised variance (clip=True)
    exp |-> [f \in FnNames |-> Expectation(f, s, w)],
    expvar |-> [f \in FnNames |-> ExpectedMoment(f, s, w, 2)],
    essmin |-> [f \in FnNames |-> EssMin(f, s, w)],
@@ -268,6 +269,11 @@ OpTable ==
   \cup {Row("impose_tstd", k, FALSE, 0, R("tvar", k), {R("tmean", k)}, R("tvar", k), TRUE, TrimStdTargets)
           : k \in 1..Len(Ks)}
   \cup {Row("impose_tmean", k, TRUE, 0, R("wmean", k), {R("spread", 0)}, None, FALSE, TrimMeanTargets)
+          : k \in 1..Len(Ks)}
+  \* winsorised (clip=True) variance / std: the winsorised mean is what they promise to keep
+  \cup {Row("impose_tvariance", k, TRUE, 0, R("wvar", k), {R("wmean", k)}, R("wvar", k), FALSE, TrimVarTargets)
+          : k \in 1..Len(Ks)}
+  \cup {Row("impose_tstd", k, TRUE, 0, R("wvar", k), {R("wmean", k)}, R("wvar", k), TRUE, TrimStdTargets)
           : k \in 1..Len(Ks)}
 
 (* support surgery.  A selection is a set of positions (support / unweighted) or a set of   *)
